@@ -1,5 +1,5 @@
 PROPS = ["CTV.Props.C05", "CTV.Props.C05Tie"]
-HARNESS = [dict(pkg="./ctutil/", test="TestVerifC05", timeout=900)]
+HARNESS = [dict(pkg="./ctutil/", test="TestVerifC05", timeout=900), dict(pkg="./internal/witness/verifier/", test="TestVerifC05Witness", timeout=300)]
 EXHAUSTIVE = True
 RULE = ("tls.VerifySignature on the full 256x256 grid of (hash, signature) codes for one genuine P-256 signature (exhaustive); the same grid for an RSA-2048 and the DSA key "
         "(full in the thorough tier, the bands hash<16 / alg<16 in the quick tier); every key of {RSA 1024/2048/2048'/3072, P-224/256/256'/384/521, DSA-2048 (testdata), Ed25519} x hash 1..6: genuine signatures under "
@@ -10,7 +10,7 @@ RULE = ("tls.VerifySignature on the full 256x256 grid of (hash, signature) codes
         "with 24 resp. 13 single-field mutations each, SerializeSCT/STHSignatureInput against a hand-written RFC 6962 layout (2^24-1 / 2^24 boundary in the thorough tier); "
         "ctutil.VerifySCT (plain, embedded) and LogInfo.VerifySCTSignature on the testdata chains for every key x opt-in x 8 variants, the expected entry derived independently "
         "(standard-library X.509 + own extension stripping); nil entry pointers; "
-        "NewFromSignedJSON with valid/invalid documents and signatures. The expected verdict of every case is computed by the harness from the standard library "
+        "NewFromSignedJSON with valid/invalid documents and signatures; WitnessVerifier.VerifySignature on cosigned STHs with 0 (nil/empty), 1, 2, 3, 5 witness signatures, each genuine / foreign / corrupted / other algorithm code / garbage at every position. The expected verdict of every case is computed by the harness from the standard library "
         "primitive on (key, digest, r, s). non-trivial = distinct lines whose implementation answer is not `err`")
 TRUSTED = ["crypto/rsa, crypto/ecdsa, crypto/dsa, crypto/* hashes (the primitives: abstract `Prims` in the theorems, the standard library in the harness)",
            "encoding/asn1 of the standard library (canonical DER of (r,s) in the harness' oracle)"]
